@@ -89,6 +89,9 @@ theorem enterCall_static (env : Env) (ctx : Ctx) (kind : Kind) (addr : Addr) (va
     · exact StaticEq.refl w
     · have h1 := callWorld_static ctx kind addr value w (fun hk => ⟨hv hk, hself (by simp [hk])⟩)
       apply callExit_static
+      unfold calleeRes runPrecompile
+      split
+      · split <;> exact h1
       split
       · exact h1
       · rename_i hcode
